@@ -15,6 +15,8 @@ from rigsim.seams import rig_module
 from rigsim.runner import innermost_rig_frame
 
 RIG_MODULES = ["rig.bitfield"]
+# (no fault kinds exist for this property: what the scheduler contributes is the
+# interleaving of views and rejected operations; faults_fired stays empty)
 COMPONENTS_REAL = ["rig.bitfield.BitField (add_field, __call__, "
                    "assign_fields, get_value, get_mask, "
                    "get_location_and_length, get_tags, __getattr__), _Tree, "
